@@ -28,8 +28,8 @@ type Case struct {
 	Target      string `json:"target"` // png jpeg webp auto icc
 	Sizes       []int  `json:"sizes"`
 	DataWithEOF bool   `json:"data_with_eof"`
-	BufSize     int    `json:"buf_size,omitempty"` // icc only
-	Seekable    bool   `json:"seekable,omitempty"` // the scheduled source also implements io.Seeker
+	BufSize     int    `json:"buf_size,omitempty"`   // icc only
+	Seekable    bool   `json:"seekable,omitempty"`   // the scheduled source also implements io.Seeker
 	ZeroEvery   int    `json:"zero_every,omitempty"` // every n-th read returns (0, nil)
 }
 
@@ -68,6 +68,13 @@ func check(c Case) (kind, what string, nt bool) {
 		ref := readICC(bufio.NewReaderSize(bytes.NewReader(c.Data), 1<<20))
 		got := readICC(bufio.NewReaderSize(s, bs))
 		nt = s.MultiCall || s.ShortCalls > 0
+		if ref.OK && got.OK && ref.Desc != got.Desc && !ref.DescErr && !got.DescErr {
+			// a multi-localised description without exactly one eligible record is "some record": either run may
+			// return any member of the candidate set, so only membership can be compared
+			if set, mluc := build.DescCandidates(c.Data); mluc && member(set, ref.Desc) && member(set, got.Desc) {
+				got.Desc = ref.Desc
+			}
+		}
 		if !reflect.DeepEqual(ref, got) {
 			return "icc/differs", fmt.Sprintf("ICC reader behind bufio(%d) over schedule %v: %+v; all-at-once: %+v (%s)", bs, c.Sizes, brief(got), brief(ref), c.Desc), nt
 		}
@@ -106,7 +113,7 @@ func TestC08(t *testing.T) {
 		fmt.Println("REPLAY case passed")
 		return
 	}
-	ev.Rule("inputs: every repository image and profile, grammar-built seeds (incl. profiles > 4 KiB), hostile mini-files, rapid-generated valid files (ICC up to 70 KB, chunk headers straddling 4096*k), rapid structure-aware mutations and truncations of all of these. Schedules per input: fixed segment sizes 1,2,3,7,8,4095,4096,4097, rapid size lists, final data together with EOF, every n-th read returning (0, nil); for the ICC reader bufio readers of size 16/64/4096/65536 in front of the scheduled source. Oracle (metamorphic): outcome tuple == outcome under all-at-once delivery from bytes.Reader. non-trivial = distinct (input, schedule) whose source delivered the input in >= 2 calls or returned a short count")
+	ev.Rule("inputs: every repository image and profile, grammar-built seeds (incl. profiles > 4 KiB), hostile mini-files, rapid-generated valid files (ICC up to 70 KB, chunk headers straddling 4096*k), rapid structure-aware mutations and truncations of all of these. Schedules per input: fixed segment sizes 1,2,3,7,8,4095,4096,4097, a first read ending at each structure boundary followed by one piece or by a 4096/8192/65536-byte piece and crumbs, rapid size lists, final data together with EOF, every n-th read returning (0, nil); for the ICC reader bufio readers of size 16/64/4096/65536 in front of the scheduled source. Oracle (metamorphic): outcome tuple == outcome under all-at-once delivery from bytes.Reader. non-trivial = distinct (input, schedule) whose source delivered the input in >= 2 calls or returned a short count")
 	ev.Assume("error text is not compared, only success/error and values; a source returns (0, nil) only when the case says so (every n-th read, n >= 2, never twice in a row - what io.Reader calls 'nothing happened')")
 	all := append(seeds.All(), seeds.Hostile()...)
 	bad := map[string]bool{}
@@ -141,6 +148,32 @@ func TestC08(t *testing.T) {
 		}
 	}
 	ev.Class("seed-x-fixed-schedules", int64(len(all)*len(fixed)*2))
+	// every structure boundary of every seed as the end of the first read (the loader's buffer is empty exactly
+	// there), followed by one big piece, or by a buffer-sized piece and crumbs
+	{
+		var nb int64
+		for _, sd := range all {
+			if len(sd.Data) > 100000 || sd.Kind == "ICC" {
+				continue
+			}
+			for _, e := range mut.Ends(sd.Map, len(sd.Data)) {
+				if e <= 0 || e >= len(sd.Data) {
+					continue
+				}
+				for ti, tail := range [][]int{{1 << 30}, {4096, 1}, {8192, 7, 1}, {65536, 3}} {
+					sc := []int{e}
+					for k := 0; k < 40; k++ {
+						sc = append(sc, tail...)
+					}
+					for _, target := range []string{ld.ForFormat(sd.Kind), "auto"} {
+						run(Case{Desc: sd.Name, Data: sd.Data, Target: target, Sizes: sc, DataWithEOF: ti%2 == 1})
+						nb++
+					}
+				}
+			}
+		}
+		ev.Class("first-read-ends-at-boundary", nb)
+	}
 	// large inputs: the last needed structure ends shortly after 1 MiB / 8 MiB (16, 32 MiB in thorough); anything
 	// that counts bytes per Read call (limits, progress, buffers sized from totals) depends on the segmentation
 	ths := []int{1 << 20, 8 << 20}
@@ -228,10 +261,12 @@ func TestC08(t *testing.T) {
 					pos = e
 				}
 			}
-			c.Sizes = append(c.Sizes, rapid.SampledFrom([]int{1 << 30, 4096, 65536}).Draw(rt, "rest"))
+			// ... then a repeating pattern of 1-3 sizes (one big piece; buffer-sized pieces; a buffer-sized piece
+			// followed by crumbs), so that read sizes change during the stream
+			tail := rapid.SliceOfN(rapid.SampledFrom([]int{1 << 30, 4096, 65536, 1, 7, 100, 4095, 4097, 8192}), 1, 3).Draw(rt, "rest")
 			// the size list is cycled by the source: pad so that the split sizes are used once only
 			for k := 0; k < 64; k++ {
-				c.Sizes = append(c.Sizes, c.Sizes[len(c.Sizes)-1])
+				c.Sizes = append(c.Sizes, tail...)
 			}
 		}
 		c.DataWithEOF = rapid.Bool().Draw(rt, "dataeof")
@@ -262,4 +297,13 @@ func zeroNote(c Case) string {
 		return fmt.Sprintf(" [every %d-th read returned (0, nil)]", c.ZeroEvery)
 	}
 	return ""
+}
+
+func member(set []string, s string) bool {
+	for _, x := range set {
+		if x == s {
+			return true
+		}
+	}
+	return false
 }
